@@ -94,6 +94,9 @@ pub(crate) fn fit_cluster_to_helix(
         initial_simplex.push(new_point);
     }
 
+    #[cfg(alpha_g_verif)]
+    VERIF_LAST_SIMPLEX.with(|s| *s.borrow_mut() = initial_simplex.clone());
+
     let problem = Problem {
         points: sp,
         tolerance: closest_t_tolerance,
@@ -269,4 +272,51 @@ impl CostFunction for Problem {
             .sum::<Area>()
             .get::<square_meter>())
     }
+}
+
+// Verification hooks (read-only wrappers and one recorder; compiled only with
+// `--cfg alpha_g_verif`).
+#[cfg(alpha_g_verif)]
+thread_local! {
+    static VERIF_LAST_SIMPLEX: std::cell::RefCell<Vec<Vec<f64>>> = const { std::cell::RefCell::new(Vec::new()) };
+}
+// The initial simplex of the most recent `fit_cluster_to_helix` on this thread that got past the
+// initial guess (rows are [x0, y0, z0, r, phi0, h] in meters/radians; row 0 is the guess itself).
+#[cfg(alpha_g_verif)]
+pub fn verif_take_initial_simplex() -> Vec<Vec<f64>> {
+    VERIF_LAST_SIMPLEX.with(|s| std::mem::take(&mut *s.borrow_mut()))
+}
+#[cfg(alpha_g_verif)]
+pub fn verif_three_template_points(
+    points: &[SpacePoint],
+) -> Result<(SpacePoint, SpacePoint, SpacePoint), TryTrackFromClusterError> {
+    three_template_points(points)
+}
+#[cfg(alpha_g_verif)]
+pub fn verif_circle_through_three_points(
+    p1: (f64, f64),
+    p2: (f64, f64),
+    p3: (f64, f64),
+) -> (f64, f64, f64) {
+    let l = Length::new::<meter>;
+    let (x, y, r) = circle_through_three_points(
+        (l(p1.0), l(p1.1)),
+        (l(p2.0), l(p2.1)),
+        (l(p3.0), l(p3.1)),
+    );
+    (x.get::<meter>(), y.get::<meter>(), r.get::<meter>())
+}
+#[cfg(alpha_g_verif)]
+pub fn verif_center_of_mass(points: &[SpacePoint]) -> Coordinate {
+    center_of_mass(points)
+}
+#[cfg(alpha_g_verif)]
+pub fn verif_track_cost(points: Vec<SpacePoint>, tolerance: f64, max_num_iter: usize, p: &[f64]) -> f64 {
+    Problem {
+        points,
+        tolerance,
+        max_num_iter,
+    }
+    .cost(&p.to_vec())
+    .unwrap()
 }
